@@ -193,11 +193,24 @@ func (Sim) Run(raw json.RawMessage, prop string, keep bool) (res simfw.Result) {
 		res.Nontrivial = true
 		return
 	}
-	e.request(world, docBytes, false)
+	// requests in flight over one document: all validated first, forwarded bodies read afterwards
+	var hs []func()
+	hs = append(hs, e.request(world, docBytes, s.Req, false))
+	for i, more := range s.MoreReqs {
+		if i >= 3 {
+			break
+		}
+		log.Add("sim", "next-request", fmt.Sprint(i+2), "")
+		hs = append(hs, e.request(world, docBytes, more, false))
+		res.Probe("req-in-flight")
+	}
+	for _, i := range readOrder(len(hs), s.ReadReverse) {
+		hs[i]()
+	}
 	if s.Again && s.Req.Chunk.FaultAt > 0 {
 		s.Req.Chunk.FaultAt = 0
 		log.Add("sim", "again", "fault-free request on the same document", "")
-		e.request(world, docBytes, true)
+		e.request(world, docBytes, s.Req, true)()
 	}
 	var pnames []string
 	for _, p := range s.Doc.Params {
@@ -210,9 +223,13 @@ func (Sim) Run(raw json.RawMessage, prop string, keep bool) (res simfw.Result) {
 }
 
 // request runs the request leg once.
-func (e *env) request(world *World, docBytes []byte, again bool) {
+// request runs the validations of one request; what the next handler then does
+// (read the forwarded body, with the checks on it) is returned as a closure, so
+// that several requests can be in flight: all validated before any forwarded
+// body is read.
+func (e *env) request(world *World, docBytes []byte, q ReqSpec, again bool) (handler func()) {
 	s, log, res := e.s, e.log, e.res
-	q := s.Req
+	handler = func() {}
 	orig := []byte(q.Body)
 	tag := ""
 	if again {
@@ -424,123 +441,127 @@ func (e *env) request(world *World, docBytes []byte, again bool) {
 		}
 	}
 
-	// ---- the next handler reads the forwarded body -----------------------------
-	e.party = "handler"
-	var final []byte
-	var finalErr error
-	finalReads := 0
-	if req.Body != nil {
-		final, finalReads, finalErr = simenv.ReadAllLimited(req.Body, s.ReadBuf, 1<<16)
-		req.Body.Close()
-	}
-	log.Add("handler", "read-forwarded-body", fmt.Sprint(len(final)), fmt.Sprint(finalErr))
-	_ = finalReads
-	if st != nil && st.FaultFired && !faultSeen {
-		// nobody before the handler touched the stream: the handler met the fault itself
-		res.Fault("reqbody_" + q.Chunk.FaultKind + "_at_handler")
-		faultSeen = true
-	}
-	if faultSeen {
-		res.Probe("fault-run")
-		return // R1/R2 are not asserted for bytes the stream never delivered
-	}
+	handler = func() {
+		// ---- the next handler reads the forwarded body -----------------------------
+		e.party = "handler"
+		var final []byte
+		var finalErr error
+		finalReads := 0
+		if req.Body != nil {
+			final, finalReads, finalErr = simenv.ReadAllLimited(req.Body, s.ReadBuf, 1<<16)
+			req.Body.Close()
+		}
+		log.Add("handler", "read-forwarded-body", fmt.Sprint(len(final)), fmt.Sprint(finalErr))
+		_ = finalReads
+		if st != nil && st.FaultFired && !faultSeen {
+			// nobody before the handler touched the stream: the handler met the fault itself
+			res.Fault("reqbody_" + q.Chunk.FaultKind + "_at_handler")
+			faultSeen = true
+		}
+		if faultSeen {
+			res.Probe("fault-run")
+			return // R1/R2 are not asserted for bytes the stream never delivered
+		}
 
-	// ---- R1 (C13): the body is still readable in full -----------------------
-	skipAll := true
-	defaultsBody := false
-	lastDefaultsAccepted := -1
-	for i, v := range s.Vals {
-		if !v.SkipDefaults {
-			skipAll = false
-			if !v.ExcludeBody && s.Doc.BodyKind == "json" {
-				defaultsBody = true
-			}
-			if verdicts[i] == nil {
-				lastDefaultsAccepted = i
-			}
-		}
-	}
-	bodySig := func(k string) string {
-		rej := "accepted"
-		for _, v := range verdicts {
-			if v != nil {
-				rej = "rejected"
+		// ---- R1 (C13): the body is still readable in full -----------------------
+		skipAll := true
+		defaultsBody := false
+		lastDefaultsAccepted := -1
+		for i, v := range s.Vals {
+			if !v.SkipDefaults {
+				skipAll = false
+				if !v.ExcludeBody && s.Doc.BodyKind == "json" {
+					defaultsBody = true
+				}
+				if verdicts[i] == nil {
+					lastDefaultsAccepted = i
+				}
 			}
 		}
-		return fmt.Sprintf("%s:%s", k, rej)
-	}
-	if finalErr != nil {
-		violate("C13", "R1-readable", bodySig("body-read-error"), fmt.Sprintf("next handler's read of the forwarded body failed: %v (after %d bytes of %d)", finalErr, len(final), len(orig)))
-	} else {
-		var expected any
-		haveExpected := false
-		if defaultsBody && s.Doc.Body != nil {
-			var v any
-			if json.Unmarshal(orig, &v) == nil {
-				expected = ApplyDefaults(s.Doc.Body, v)
-				haveExpected = true
+		bodySig := func(k string) string {
+			rej := "accepted"
+			for _, v := range verdicts {
+				if v != nil {
+					rej = "rejected"
+				}
 			}
+			return fmt.Sprintf("%s:%s", k, rej)
 		}
-		same := bytes.Equal(final, orig)
-		switch {
-		case same:
-			// fine unless defaults had to appear
-			if haveExpected && lastDefaultsAccepted >= 0 && !s.Vals[lastDefaultsAccepted].ExcludeBody {
-				var ov any
-				json.Unmarshal(orig, &ov)
-				if !reflect.DeepEqual(ov, expected) {
-					violate("C13", "R2-body-defaults", "body-defaults-missing", fmt.Sprintf("accepted with default-setting on, but the forwarded body is the original %s; expected defaults: %s", simfw.Trunc(string(orig), 200), js(expected)))
+		if finalErr != nil {
+			violate("C13", "R1-readable", bodySig("body-read-error"), fmt.Sprintf("next handler's read of the forwarded body failed: %v (after %d bytes of %d)", finalErr, len(final), len(orig)))
+		} else {
+			var expected any
+			haveExpected := false
+			if defaultsBody && s.Doc.Body != nil {
+				var v any
+				if json.Unmarshal(orig, &v) == nil {
+					expected = ApplyDefaults(s.Doc.Body, v)
+					haveExpected = true
+				}
+			}
+			same := bytes.Equal(final, orig)
+			switch {
+			case same:
+				// fine unless defaults had to appear
+				if haveExpected && lastDefaultsAccepted >= 0 && !s.Vals[lastDefaultsAccepted].ExcludeBody {
+					var ov any
+					json.Unmarshal(orig, &ov)
+					if !reflect.DeepEqual(ov, expected) {
+						violate("C13", "R2-body-defaults", "body-defaults-missing", fmt.Sprintf("accepted with default-setting on, but the forwarded body is the original %s; expected defaults: %s", simfw.Trunc(string(orig), 200), js(expected)))
+					} else {
+						res.Probe("body-nothing-to-default")
+					}
+				}
+			case !defaultsBody:
+				violate("C13", "R1-readable", bodySig("body-altered"), fmt.Sprintf("forwarded body differs from the received one: got %d bytes %q, sent %d bytes %q", len(final), simfw.Trunc(string(final), 120), len(orig), simfw.Trunc(string(orig), 120)))
+			default:
+				var fv any
+				if err := json.Unmarshal(final, &fv); err != nil || !haveExpected {
+					violate("C13", "R1-readable", bodySig("body-altered"), fmt.Sprintf("forwarded body is neither the original nor a JSON value: %q (sent %q)", simfw.Trunc(string(final), 120), simfw.Trunc(string(orig), 120)))
+				} else if !reflect.DeepEqual(fv, expected) {
+					violate("C13", "R2-body-defaults", "body-defaults-wrong", fmt.Sprintf("forwarded body %s; reference model expects %s (original %s)", js(fv), js(expected), simfw.Trunc(string(orig), 200)))
 				} else {
-					res.Probe("body-nothing-to-default")
+					res.Probe("body-defaults-applied")
 				}
 			}
-		case !defaultsBody:
-			violate("C13", "R1-readable", bodySig("body-altered"), fmt.Sprintf("forwarded body differs from the received one: got %d bytes %q, sent %d bytes %q", len(final), simfw.Trunc(string(final), 120), len(orig), simfw.Trunc(string(orig), 120)))
-		default:
-			var fv any
-			if err := json.Unmarshal(final, &fv); err != nil || !haveExpected {
-				violate("C13", "R1-readable", bodySig("body-altered"), fmt.Sprintf("forwarded body is neither the original nor a JSON value: %q (sent %q)", simfw.Trunc(string(final), 120), simfw.Trunc(string(orig), 120)))
-			} else if !reflect.DeepEqual(fv, expected) {
-				violate("C13", "R2-body-defaults", "body-defaults-wrong", fmt.Sprintf("forwarded body %s; reference model expects %s (original %s)", js(fv), js(expected), simfw.Trunc(string(orig), 200)))
-			} else {
-				res.Probe("body-defaults-applied")
+			// ContentLength and GetBody bookkeeping
+			if req.ContentLength != -1 && req.ContentLength != int64(len(final)) && !(req.Body == nil || q.BodyMode == "nil" || q.BodyMode == "nobody") {
+				violate("C13", "R1-content-length", bodySig("content-length"), fmt.Sprintf("ContentLength=%d but %d bytes are readable", req.ContentLength, len(final)))
 			}
-		}
-		// ContentLength and GetBody bookkeeping
-		if req.ContentLength != -1 && req.ContentLength != int64(len(final)) && !(req.Body == nil || q.BodyMode == "nil" || q.BodyMode == "nobody") {
-			violate("C13", "R1-content-length", bodySig("content-length"), fmt.Sprintf("ContentLength=%d but %d bytes are readable", req.ContentLength, len(final)))
-		}
-		if req.GetBody != nil {
-			if rc, err := req.GetBody(); err == nil && rc != nil {
-				again, _, _ := simenv.ReadAllLimited(rc, 512, 1<<16)
-				if !bytes.Equal(again, final) {
-					violate("C13", "R1-getbody", bodySig("getbody-stale"), fmt.Sprintf("GetBody yields %q but the forwarded body was %q", simfw.Trunc(string(again), 100), simfw.Trunc(string(final), 100)))
+			if req.GetBody != nil {
+				if rc, err := req.GetBody(); err == nil && rc != nil {
+					again, _, _ := simenv.ReadAllLimited(rc, 512, 1<<16)
+					if !bytes.Equal(again, final) {
+						violate("C13", "R1-getbody", bodySig("getbody-stale"), fmt.Sprintf("GetBody yields %q but the forwarded body was %q", simfw.Trunc(string(again), 100), simfw.Trunc(string(final), 100)))
+					}
+					res.Probe("getbody-checked")
 				}
-				res.Probe("getbody-checked")
 			}
 		}
-	}
 
-	// ---- R2 (C13): parameters ------------------------------------------------------
-	after := snaps[len(snaps)-1]
-	if skipAll {
-		if after.RawQuery != before.RawQuery || !reflect.DeepEqual(after.Header, before.Header) {
-			violate("C13", "R2-skip-identity", "skip-defaults-changed-request", fmt.Sprintf("default-setting skipped, yet the request changed: query %q -> %q, headers %v -> %v", before.RawQuery, after.RawQuery, before.Header, after.Header))
+		// ---- R2 (C13): parameters ------------------------------------------------------
+		after := snaps[len(snaps)-1]
+		if skipAll {
+			if after.RawQuery != before.RawQuery || !reflect.DeepEqual(after.Header, before.Header) {
+				violate("C13", "R2-skip-identity", "skip-defaults-changed-request", fmt.Sprintf("default-setting skipped, yet the request changed: query %q -> %q, headers %v -> %v", before.RawQuery, after.RawQuery, before.Header, after.Header))
+			}
+			res.Probe("skip-identity")
+		} else if lastDefaultsAccepted >= 0 && lastDefaultsAccepted == len(s.Vals)-1 && allSame(s.Vals) {
+			e.checkParamDefaults(before, after, s.Vals[lastDefaultsAccepted], violate)
+			// idempotence: the forwarded request validates again and nothing changes further
+			e.checkIdempotent(docBytes, q, after, final, s.Vals[lastDefaultsAccepted], violate)
 		}
-		res.Probe("skip-identity")
-	} else if lastDefaultsAccepted >= 0 && lastDefaultsAccepted == len(s.Vals)-1 && allSame(s.Vals) {
-		e.checkParamDefaults(before, after, s.Vals[lastDefaultsAccepted], violate)
-		// idempotence: the forwarded request validates again and nothing changes further
-		e.checkIdempotent(docBytes, after, final, s.Vals[lastDefaultsAccepted], violate)
-	}
-	if len(s.Vals) >= 2 && verdicts[0] == nil && !s.Vals[0].SkipDefaults && reflect.DeepEqual(s.Vals[0], s.Vals[1]) {
-		if verdicts[1] != nil {
-			violate("C13", "R2-idempotent", "second-validation-rejects", fmt.Sprintf("the request accepted (with defaults) by validation #1 is rejected by an identical validation #2: %v", verdicts[1]))
-		} else if !reflect.DeepEqual(snaps[0], snaps[1]) {
-			violate("C13", "R2-idempotent", "second-validation-changes", fmt.Sprintf("validation #2 changed the request again: query %q -> %q, headers %v -> %v", snaps[0].RawQuery, snaps[1].RawQuery, snaps[0].Header, snaps[1].Header))
+		if len(s.Vals) >= 2 && verdicts[0] == nil && !s.Vals[0].SkipDefaults && reflect.DeepEqual(s.Vals[0], s.Vals[1]) {
+			if verdicts[1] != nil {
+				violate("C13", "R2-idempotent", "second-validation-rejects", fmt.Sprintf("the request accepted (with defaults) by validation #1 is rejected by an identical validation #2: %v", verdicts[1]))
+			} else if !reflect.DeepEqual(snaps[0], snaps[1]) {
+				violate("C13", "R2-idempotent", "second-validation-changes", fmt.Sprintf("validation #2 changed the request again: query %q -> %q, headers %v -> %v", snaps[0].RawQuery, snaps[1].RawQuery, snaps[0].Header, snaps[1].Header))
+			}
+			res.Probe("second-validation")
 		}
-		res.Probe("second-validation")
+
 	}
+	return handler
 }
 
 func readOrder(n int, reverse bool) []int {
@@ -664,7 +685,7 @@ func (e *env) checkParamDefaults(before, after snapshot, v ValOpts, violate func
 }
 
 // checkIdempotent validates the forwarded request again on a fresh document.
-func (e *env) checkIdempotent(docBytes []byte, after snapshot, final []byte, v ValOpts, violate func(prop, oracle, sig, detail string)) {
+func (e *env) checkIdempotent(docBytes []byte, q ReqSpec, after snapshot, final []byte, v ValOpts, violate func(prop, oracle, sig, detail string)) {
 	w, err := LoadWorld(docBytes)
 	if err != nil {
 		return
@@ -674,7 +695,7 @@ func (e *env) checkIdempotent(docBytes []byte, after snapshot, final []byte, v V
 	req.URL.Scheme, req.URL.Host = "", ""
 	req.URL.RawQuery = after.RawQuery
 	req.Header = after.Header.Clone()
-	if e.s.Req.BodyMode == "nil" || e.s.Req.BodyMode == "nobody" {
+	if q.BodyMode == "nil" || q.BodyMode == "nobody" {
 		req.Body = http.NoBody
 		req.GetBody = nil
 	}
